@@ -5,7 +5,9 @@ real source tree, the real GNU Make runs the regeneration step, and after every 
 byte with a fresh configure of the same tree; a second make must not invoke bfg9000.  Model tie: for every step the abstract
 world (script configuration, find results by an independent small walker, mtimes read from the file system, the saved
 cache) is handed to the extracted Coq model, whose prediction (step out of date?, skip/run, cache, dist set, watched dirs,
-touched outputs) is compared with what really happened."""
+touched outputs) is compared with what really happened.  Which find_check_cache is under test (with or without the repair
+F1: a cache file newer than the build file is not trusted) is detected by a behavioural probe (harness/regenvariant.py) and
+selects the model variant (Regen.lazy fxc); a corner history with a touched cache file exercises exactly that branch."""
 import json
 import os
 import random
@@ -14,7 +16,7 @@ import shutil
 import subprocess
 import time
 import fnmatch
-from . import common, project
+from . import common, project, regenvariant
 
 LEVEL = 'proof'
 RULE = ('projects are drawn from a menu of find_files / directory / header_directory / submodule / options.bfg / pkg_config '
@@ -28,6 +30,9 @@ TRUSTED = ('GNU Make 4.3 is the real tool (its verdict on whether the regenerati
            '`find` of the model; cross-checked against the .bfg_find_cache of the fresh configure at every step',
            'equality of abstract results implies equality of build files: the writer is a function of the result (C13)')
 EXPLANATION = ''
+
+# Regen.lazy fxc: find_check_cache with (True) / without (False) the repair F1; set by run() from the behavioural probe
+FXC = [False]
 
 COMPARE = ('Makefile', 'compile_commands.json', '.bfg_find_cache', '.bfg_find_deps')
 DEFAULT_EXCLUDE = ('.*#', '*~', '#*#')
@@ -479,7 +484,7 @@ class Intern:
     """path strings ('s:<below srcdir>' / 'b:<below builddir>') and filter keys -> numbers of the model"""
 
     def __init__(self):
-        self.paths = {'b:Makefile': 0, 'b:Makefile.stamp': 1}
+        self.paths = {'b:Makefile': 0, 'b:Makefile.stamp': 1, 'b:.bfg_find_cache': 2}
         self.filters = {}
         self.calls = {}       # filter json -> Call (every filter this history ever used)
 
@@ -536,7 +541,7 @@ def abstract_world(proj, src, build, it, emitted, saved):
     for c in calls:
         it.f(c)
     tree = []
-    names = set(['b:Makefile', 'b:Makefile.stamp'])
+    names = set(['b:Makefile', 'b:Makefile.stamp', 'b:.bfg_find_cache'])
     for js, c in sorted(it.calls.items()):
         trav, seen = ofind(src, c)
         tree.append([it.f(c), [[it.p('s:' + p), k == INC] for p, k in trav], [it.p('s:' + d) for d in seen]])
@@ -687,7 +692,7 @@ def history(rep, rng, proj, nsteps, hid, forced_edits=(), label='random'):
             touched = sorted(it.p('b:' + n) for n in post if n in pre_mt and post_mt.get(n) is not None and post_mt[n] != pre_mt[n]
                              and (n == 'Makefile' or n.startswith('pkgconfig/')))
             pending.append({'replay': replay, 'decision': decision, 'obs': obs, 'obs_fresh': obs_fresh, 'touched': touched,
-                            'calls': [('regen.due', [True, emit, world]), ('regen.lazy', [True, world, sv]),
+                            'calls': [('regen.due', [True, emit, world]), ('regen.lazy', [True, world, sv, FXC[0]]),
                                       ('regen.fresh', [True, world])], 'rc1': rc1})
             # ---- classification of the input (history so far) into the known-finding classes
             classes = []
@@ -827,6 +832,14 @@ def _mkdir(path):
     return f
 
 
+def _touch_cache_and_notes(proj, src):
+    """The state a regeneration leaves behind that saved .bfg_find_cache and died before writing the build file, as far as
+    mtimes go: the cache file is newer than the Makefile.  A non-matching file in a watched directory makes make start the
+    regeneration step without changing any find result."""
+    project.write_tree(src, {'src/NOTES.txt': 'not matched\n'})
+    os.utime(os.path.join(os.path.dirname(src), 'build', '.bfg_find_cache'), None)
+
+
 def _new_options(proj, src):
     proj.extra_scripts = ['options.bfg']
     project.write_tree(src, {'options.bfg': "argument('level', default='1')\n"})
@@ -854,6 +867,11 @@ def corner_histories():
         # a walked directory without results disappears (skip): is the step ever up to date again?
         out.append(('remove-resultless-dir' + tag, proj([Call('find_files', 'src', True, 'c')], pkg),
                     [{'kind': 'remove-dir', 'path': 'src/empty', 'apply': _rm('src/empty')}, 'noop']))
+        # the cache file is newer than the build file and no find result changed: skipped by the old find_check_cache,
+        # regenerated for real since the repair F1 (either way the files must equal a fresh configure and make must converge)
+        out.append(('cache-newer-than-buildfile' + tag, proj([Call('find_files', 'src', True, 'c', extra='*.h')], pkg),
+                    [{'kind': 'touch-cache+add-nonmatching', 'path': 'src/NOTES.txt', 'apply': _touch_cache_and_notes}, 'noop',
+                     {'kind': 'add-file', 'path': 'src/z3.c', 'apply': _mk({'src/z3.c': 'int z3;\n'})}]))
     # the root of a search does not exist at configure time and appears later
     out.append(('search-root-appears', proj([Call('find_files', 'src', False, 'c'), Call('find_files', 'gen', False, 'c', dist=True)]),
                 [{'kind': 'add-dir', 'path': 'gen', 'with': 'g.c', 'apply': _mk({'gen/g.c': 'int g;\n'})}, 'noop']))
@@ -890,6 +908,9 @@ def stage_system(rep, rng, nhist, nsteps):
 def run(rep):
     rng = random.Random(rep.seed)
     rep.proof_stage(coqchk=(rep.tier == 'thorough'))
+    v = regenvariant.detect()
+    regenvariant.report(rep, v)
+    FXC[0] = v['dnc']
     stage_corners(rep, rng)
     if rep.tier == 'thorough':
         stage_system(rep, rng, 40, 8)
@@ -904,6 +925,7 @@ def replay(rep, path):
     for i, (label, proj, edits) in enumerate(corner_histories()):
         if label == r.get('label'):
             rep.proof_stage(coqchk=False)
+            FXC[0] = regenvariant.detect()['dnc']
             history(rep, random.Random(rep.seed), proj, len(edits), 900 + i, forced_edits=edits, label=label)
             return
     rep.seed = r.get('seed', rep.seed)
